@@ -42,6 +42,8 @@ def judge(il, ml):
         out.append(("fields", "compact document differs from the in-memory match at " + unhex_text(f["FIELDS"])))
     if "FFIELDS" in f and f["FFIELDS"] != "ok":
         out.append(("ffields", "formatted document differs from the in-memory match at " + unhex_text(f["FFIELDS"])))
+    if "SINGLE" in f and f["SINGLE"] != "ok":
+        out.append(("single", "Match.Json()/FormattedJson() of one match differs from its element in the list: " + unhex_text(f["SINGLE"])))
     if out:
         return out
     if ml is None:
@@ -62,7 +64,7 @@ def run(ctx, spec):
     cases, impl, model, stats = S.gen_and_run(ctx, "C17")
     counters = dict(evaluations=0, compile_error=0, run_diverge_or_panic=0, empty=0, one=0, many=0,
                     with_replacement=0, with_nested_variables=0, with_flat_variables=0, coerced_invalid_utf8=0,
-                    exact_round_trip=0, failures=0)
+                    exact_round_trip=0, failures=0, undocumented_members=0)
     distinct = set()
     fails = []
     samples = []
@@ -95,6 +97,8 @@ def run(ctx, spec):
             counters["exact_round_trip"] += 1
         if n:
             distinct.add((src, text))
+        if "EXTRA" in f:
+            counters["undocumented_members"] += 1     # members the property does not speak about: recorded, not judged
         js = judge(il, model.get(cid))
         if js:
             counters["failures"] += 1
